@@ -8,7 +8,7 @@ for d in seeded/*/; do
   n=$(basename $d)
   [ -f $d/patch.diff ] || continue
   prop=$(python3 -c "import json;print(json.load(open('$d/meta.json'))['property'])")
-  res=$(VERIF_SEED=$SEED ./tools_try_mutant.sh $d/patch.diff $prop 2>&1)
+  res=$(VERIF_SEED=$SEED ./tools_try_mutant.sh "$PWD/${d}patch.diff" $prop 2>&1)
   if echo "$res" | grep -q "^VIOLATION"; then v="CAUGHT"; else v="MISSED"; fi
   cl=$(echo "$res" | grep "violated clause" | head -2 | sed 's/  violated clause \([^ ]*\) site=\([^ ]*\).*/\1@\2/' | tr '\n' ' ')
   echo "$n $prop seed=$SEED $v $cl" | tee -a $OUT
